@@ -403,10 +403,19 @@ ABSL_NAMESPACE_END
 
 extern "C" {
 
+static __thread int64_t tl_sleep_remaining = 0;
 static int sim_sleep(int64_t ns) {
+  tl_sleep_remaining = 0;
   Thread* me = self;
   sync_point(P_SLEEP, 0);
   if (ns <= 0) return 0;
+  int64_t part = fault_short_sleep(ns);
+  if (part >= 0) {
+    if (part > 0) block(ST_SLEEP, 0, G.now + part);
+    tl_sleep_remaining = ns - part;
+    errno = EINTR;
+    return -1;
+  }
   block(ST_SLEEP, 0, G.now + ns);
   (void)me;
   return 0;
@@ -426,16 +435,18 @@ int nanosleep(const struct timespec* req, struct timespec* rem) {
   typedef int (*real_t)(const struct timespec*, struct timespec*); static real_t real = nullptr; if (!real) real = (real_t)real_sym("nanosleep");
   if (!live()) return real(req, rem);
   int64_t ns = ts_to_ns(req);  // req and rem may alias (libstdc++ sleep_for)
-  if (rem) { rem->tv_sec = 0; rem->tv_nsec = 0; }
-  return sim_sleep(ns);
+  int rc = sim_sleep(ns);
+  if (rem) { rem->tv_sec = tl_sleep_remaining / 1000000000LL; rem->tv_nsec = tl_sleep_remaining % 1000000000LL; }
+  return rc;
 }
 int clock_nanosleep(clockid_t id, int flags, const struct timespec* req, struct timespec* rem) {
   typedef int (*real_t)(clockid_t, int, const struct timespec*, struct timespec*); static real_t real = nullptr; if (!real) real = (real_t)real_sym("clock_nanosleep");
   if (!live()) return real(id, flags, req, rem);
   int64_t d = ts_to_ns(req);
   if (flags & TIMER_ABSTIME) d -= clock_now(id);
-  if (rem) { rem->tv_sec = 0; rem->tv_nsec = 0; }
-  return sim_sleep(d);
+  int rc = sim_sleep(d);
+  if (rem && !(flags & TIMER_ABSTIME)) { rem->tv_sec = tl_sleep_remaining / 1000000000LL; rem->tv_nsec = tl_sleep_remaining % 1000000000LL; }
+  return rc == 0 ? 0 : EINTR;
 }
 int sched_yield(void) {
   typedef int (*real_t)(void); static real_t real = nullptr; if (!real) real = (real_t)real_sym("sched_yield");
